@@ -37,11 +37,41 @@ def dep_ref(task_id, dep_id, relative):
     return dep_id
 
 
+def _render_xgroup(scn, pkg, gname):
+    """run_experiment_group(...) for the instances / combine that carry xg.g == gname in this package"""
+    inst = sorted(((d["xg"]["j"], t, d) for t, d in scn["tasks"].items()
+                   if d.get("xg") and d["xg"]["g"] == gname and not d["xg"].get("combine") and split_tid(t)[0] == pkg))
+    comb = [d for t, d in scn["tasks"].items() if d.get("xg") and d["xg"]["g"] == gname and d["xg"].get("combine")
+            and split_tid(t)[0] == pkg][0]
+    x = comb["xg"]
+    exps = []
+    for j, t, d in inst:
+        parts = ["name=%r" % split_tid(t)[1]]
+        if d.get("args"):
+            parts.append("args=%s" % py_lit(d["args"]))
+        if d.get("options"):
+            parts.append("options=%s" % py_lit(d["options"]))
+        if d.get("par"):
+            parts.append("parallelizable=True")
+        exps.append("ExperimentInstance(%s)" % ", ".join(parts))
+    gt = tid(pkg, gname)
+    deps = "[%s]" % ", ".join(py_lit(dep_ref(gt, dd, rr)) for dd, rr in zip(x["gdeps"], x["grel"]))
+    return "run_experiment_group(name=%r, run=%r, experiments=[%s], chain_experiments=%r, deps=%s)" % (
+        gname, "sim @" + gname, ", ".join(exps), bool(x["chain"]), deps)
+
+
 def render_cond(scn, pkg):
     lines = []
+    done_groups = set()
     for t, d in scn["tasks"].items():
         p, name = split_tid(t)
         if p != pkg:
+            continue
+        if d.get("xg"):
+            g = d["xg"]["g"]
+            if g not in done_groups:
+                done_groups.add(g)
+                lines.append(_render_xgroup(scn, pkg, g))
             continue
         rel = d.get("rel", [True] * len(d["deps"]))
         deps = "[%s]" % ", ".join(py_lit(dep_ref(t, x, r)) for x, r in zip(d["deps"], rel))
@@ -168,6 +198,37 @@ def gen_graph(r, n, kinds_w, pkgs, p_par=0.5, p_edge=0.45, shape=None):
         kind = r.choices(list(kinds_w), weights=list(kinds_w.values()))[0]
         if i == 0 and kind in ("group", "combine"):
             kind = "exp"
+        if kind == "xgroup":
+            # run_experiment_group: m experiment instances (optionally chained) + a combine named after the group
+            m = r.randint(2, 4)
+            free = [nm for nm in NAMES + ["i1", "i2", "i3", "i4", "grp"] if (pkg, nm) not in used and nm != name]
+            if len(free) < m:
+                kind = "exp"
+            else:
+                inames = r.sample(free, m)
+                gdeps = [c for c in ids if r.random() < 0.3][:2]
+                grel = [r.random() < 0.7 for _ in gdeps]
+                chain = r.random() < 0.6
+                prev = None
+                its = []
+                for j, nm in enumerate(inames):
+                    used.add((pkg, nm))
+                    it = tid(pkg, nm)
+                    dd = list(gdeps) + ([prev] if chain and prev else [])
+                    d = {"kind": "exp", "deps": dd, "rel": list(grel) + ([True] if chain and prev else []),
+                         "par": r.random() < p_par, "xg": {"g": name, "j": j}}
+                    if r.random() < 0.4:
+                        d["args"] = [gen_value(r) for _ in range(r.randint(1, 2))]
+                    if r.random() < 0.4:
+                        d["options"] = {k: gen_value(r) for k in r.sample(["threads", "mem", "mode"], r.randint(1, 2))}
+                    tasks[it] = d
+                    ids.append(it)
+                    its.append(it)
+                    prev = it
+                tasks[t] = {"kind": "combine", "deps": list(its), "rel": [True] * m,
+                            "xg": {"g": name, "combine": True, "gdeps": gdeps, "grel": grel, "chain": chain}}
+                ids.append(t)
+                continue
         cand = list(ids)
         deps = []
         if cand:
